@@ -122,6 +122,15 @@ def folderEdit (vaultSteps : List Prim) (event : Bytes) : List Prim := vaultStep
 /-- what the next start reads from the log file with a header of `hdr` bytes -/
 def logView (hdr : Nat) (s : FS) : List Bytes := openLog ((s.log.getD []).drop hdr)
 
+/-- What opening an event log does first (`initialize_event_log`, as repaired): a file shorter
+than its header holds no records and gets its header written again. -/
+def initLog (hdr : Bytes) (s : FS) : FS :=
+  if (s.log.getD []).length < hdr.length then { s with log := some hdr } else s
+
+/-- before the repair only an EMPTY file was initialised -/
+def initLogOld (hdr : Bytes) (s : FS) : FS :=
+  if (s.log.getD []).length = 0 then { s with log := some hdr } else s
+
 /-! ## Abstract description of a crash state (for the correspondence run) -/
 
 def how (before now : Option Bytes) : Option String :=
